@@ -64,7 +64,42 @@ func init() {
 	})
 }
 
+// c15Foreign: well-formed packets from an independent encoder that carry attributes the library has no
+// dedicated reader for (octets 3-4 of such attributes are data, not reserved); attributes in ascending type
+// order so that the open order finding does not apply. The receiver must compute the transmitted MAC.
+func c15Foreign(c *engine.Ctx) {
+	foreign := []ref.AKAAttr{
+		{T: 4, V: append([]byte{0x12, 0x34}, univ.Pat(12, 1)...)},  // AT_AUTS: 14 octets of data right after the length octet
+		{T: 12, V: []byte{0x80, 0x00}},                              // AT_NOTIFICATION: 16-bit code
+		{T: 14, V: append([]byte{0x00, 0x05}, []byte("user1\x00\x00\x00")...)}, // AT_IDENTITY: actual length + padded identity
+		{T: 19, V: []byte{0x00, 0x07}},                              // AT_COUNTER
+		{T: 22, V: []byte{0x00, 0x01}},                              // AT_CLIENT_ERROR_CODE
+		{T: 129, V: append([]byte{0xab, 0xcd}, univ.Pat(16, 2)...)}, // AT_IV
+		{T: 135, V: []byte{0xff, 0xff}},                             // AT_RESULT_IND with non-zero "reserved"
+	}
+	for mask := 1; mask < 1<<uint(len(foreign)); mask++ {
+		if !c.Mine() {
+			continue
+		}
+		var ats []ref.AKAAttr
+		ats = append(ats, ref.AKAAttr{T: ref.AtRAND, V: univ.Pat(16, 3)})
+		for i, f := range foreign {
+			if mask&(1<<uint(i)) != 0 && f.T < ref.AtMAC {
+				ats = append(ats, f)
+			}
+		}
+		ats = append(ats, ref.AKAAttr{T: ref.AtMAC, V: make([]byte, 16)})
+		for i, f := range foreign {
+			if mask&(1<<uint(i)) != 0 && f.T > ref.AtMAC {
+				ats = append(ats, f)
+			}
+		}
+		c15RefReceiver(c, &ref.EAP{Code: 1, ID: uint8(mask), Method: 50, Sub: 1, AKA: ats}, fmt.Sprintf("foreign=%07b", mask))
+	}
+}
+
 func runC15(c *engine.Ctx) {
+	c15Foreign(c)
 	vals := map[uint8][]byte{ref.AtRAND: univ.Pat(16, 1), ref.AtAUTN: univ.Pat(16, 2), ref.AtRES: univ.Pat(7, 3), ref.AtMAC: univ.Pat(16, 4),
 		ref.AtKDF: {0, 1}, ref.AtKDFInput: univ.Pat(9, 5), ref.AtCheckcode: univ.Pat(20, 6)}
 	valsAligned := map[uint8][]byte{ref.AtRAND: univ.Pat(16, 11), ref.AtAUTN: univ.Pat(16, 12), ref.AtRES: univ.Pat(8, 13), ref.AtMAC: univ.Pat(16, 14),
